@@ -38,6 +38,13 @@ STRATA = {
     "table_limit": (40, 800),
     "declines": (300, 5000),
 }
+# functions that must leave their arguments untouched (vf.core.PurityMonitor; '!' = the object itself is watched too)
+PURE = [
+    "biotite.sequence.align.banded:align_banded",
+    "biotite.sequence.align.localgapped:align_local_gapped",
+    "biotite.sequence.align.localungapped:align_local_ungapped",
+    "biotite.sequence.align.pairwise:align_optimal",
+]
 REQUIRED_ORACLES = [
     "trace_valid", "score_honest", "not_above_optimum", "optimum_when_unrestricted", "band_respected",
     "band_error_iff_no_overlap", "seed_contained", "direction_respected", "score_only_consistent",
